@@ -191,6 +191,23 @@ theorem detection_is_not_isolated (pre post : List (FileRun V)) (b : FileRun V) 
     obtain ⟨p, hp⟩ := (lintFile_ok_iff f).mpr hpre.1
     simp [lintAll, hp, ih hpre.2]
 
+
+theorem parallel_as_flatMap (fs : List (FileRun V)) :
+    (lintAllParallel fs).1 = fs.flatMap (fun f => (worker f).1) ∧ (lintAllParallel fs).2 = fs.flatMap (fun f => (worker f).2) := by
+  induction fs with
+  | nil => exact ⟨rfl, rfl⟩
+  | cons f rest ih =>
+    simp only [lintAllParallel, List.foldr_cons, List.flatMap_cons] at ih ⊢
+    exact ⟨by rw [ih.1], by rw [ih.2]⟩
+
+/-- **The completion order of the workers does not matter**: any rearrangement of the files yields the same
+    violations and the same failure records, rearranged -/
+theorem parallel_order_independent (fs fs' : List (FileRun V)) (h : fs'.Perm fs) :
+    (lintAllParallel fs').1.Perm (lintAllParallel fs).1 ∧ (lintAllParallel fs').2.Perm (lintAllParallel fs).2 := by
+  rw [(parallel_as_flatMap fs).1, (parallel_as_flatMap fs).2, (parallel_as_flatMap fs').1, (parallel_as_flatMap fs').2]
+  exact ⟨h.flatMap_right _, h.flatMap_right _⟩
+
+
 /-! ## Non-vacuity -/
 
 example : lintAll [⟨1, .lint, [(1, .ok [10]), (2, .raises (.other 7)), (3, .ok [11])]⟩, ⟨2, .skipped, [(1, .raises .value)]⟩, ⟨3, .lint, [(1, .ok [12])]⟩] =
